@@ -244,7 +244,7 @@ def run_nuts(sc, global_seed):
     def grad(x):
         return gradient(tg, x)
 
-    x0 = np.array(sc["x0"], dtype=float)
+    x0 = start_obj(sc)          # float64, or the same numbers as an int64 / float32 array
     kw = {}
     for k_ in ("n_adapt", "stepsize", "max_depth"):
         if sc.get(k_) is not None:
@@ -272,7 +272,7 @@ def record_nuts(sc):
     res2, exc2, out2, events2 = run_nuts(sc, 202)
     d1 = res + exc + digest_run(out, [e["x"] for e in events])
     d2 = res2 + exc2 + digest_run(out2, [e["x"] for e in events2])
-    x0 = np.array(sc["x0"], dtype=float).reshape(-1)
+    x0 = eff_x0(sc).reshape(-1)
     sid = {}
 
     def S(a):
@@ -396,6 +396,11 @@ def nuts_scenarios(ctx, rnd):
                   max_depth=md, seed=(0 if rnd.random() < 0.08 else rnd.randint(0, 2 ** 31 - 1)))
         if f28_class(sc):                      # that input class is finding F28 (pinned below), not sampled
             sc["n_adapt"] = n
+        if rnd.random() < 0.3:
+            # the start handed over as an integer or single-precision array (the numbers are what counts)
+            cand = dict(sc, x0dt=rnd.choice(["int64", "int64", "float32"]))
+            if evaluate(tg, eff_x0(cand))[0] not in ("nan", "inf", "-inf"):
+                sc = cand
         out.append(sc)
     out.append(dict(kernel="nuts", tg=dict(fam="gauss", s=1.0, box=1.0, ret="float"), d=1, x0=[2.0], n=3, n_adapt=0, stepsize=0.5,
                     max_depth=2, seed=1))      # -inf start: refused (mechanism only)
@@ -591,6 +596,8 @@ def std_target(name):
 def record_moments(sc):
     from elfi.methods import mcmc
     logp, grad, x0, stats, sigma = std_target(sc["target"])
+    if sc.get("x0int"):
+        x0 = np.zeros(len(x0), dtype=np.int64)
     tr = dict(kernel=sc["kernel"], target=sc["target"], n=sc["n"], seed=sc["seed"], res="ok", nonfinite=False, stats=[])
     try:
         with warnings.catch_warnings(), np.errstate(all="ignore"), time_limit(600):
@@ -632,6 +639,8 @@ def check_moments(ctx):
         n_nuts = (40000 if cheap else 8000) if ctx.quick else (160000 if cheap else 40000)
         scs.append(dict(kernel="nuts", target=target, n=n_nuts, warm=1000, seed=rnd.randint(0, 2 ** 31 - 1)))
         scs.append(dict(kernel="metropolis", target=target, n=60000 if ctx.quick else 300000, warm=2000, seed=rnd.randint(0, 2 ** 31 - 1)))
+        if cheap:       # a valid start given as an integer array (the origin): the chain is a chain of real vectors all the same
+            scs.append(dict(kernel="nuts", target=target, n=n_nuts // 2, warm=1000, seed=rnd.randint(0, 2 ** 31 - 1), x0int=True))
     traces = [record_moments(sc) for sc in scs]
     vs = ctx.validate("Moments_Trace", traces, chunk=50, name="moments")
     worst = 0.0
